@@ -64,6 +64,24 @@ class Inconclusive(Exception):
     pass
 
 
+def preimport():
+    """Import everything heavy up front: a SIGALRM-based time limit must never fire in the middle of an import."""
+    import importlib as _il
+
+    for name in ("numpy", "scipy.stats", "scipy.optimize", "scipy.sparse.linalg", "scipy.spatial.distance", "pandas", "h5py", "joblib",
+                 "statsmodels.api", "sklearn.ensemble", "sklearn.gaussian_process", "xgboost", "gymnasium",
+                 "black_it.calibrator", "black_it.samplers.best_batch", "black_it.samplers.cors", "black_it.samplers.gaussian_process",
+                 "black_it.samplers.halton", "black_it.samplers.particle_swarm", "black_it.samplers.r_sequence", "black_it.samplers.random_forest",
+                 "black_it.samplers.random_uniform", "black_it.samplers.xgboost", "black_it.loss_functions.fourier", "black_it.loss_functions.gsl_div",
+                 "black_it.loss_functions.likelihood", "black_it.loss_functions.minkowski", "black_it.loss_functions.msm",
+                 "black_it.schedulers.rl.rl_scheduler", "black_it.schedulers.rl.agents.epsilon_greedy", "black_it.schedulers.rl.envs.mab",
+                 "black_it.utils.sqlite3_checkpointing", "black_it.utils.time_series"):
+        try:
+            _il.import_module(name)
+        except Exception:  # noqa: BLE001  a tree under test may have broken an import: the check itself will say so
+            pass
+
+
 # --------------------------------------------------------------------------- helpers
 def rng_for(seed: int, *key: int):
     import numpy as np  # noqa: PLC0415
@@ -146,6 +164,7 @@ def shard_main(pid: str, tier: str, seed: int, shard: int, nshards: int, out: st
     tmp = Path(tempfile.mkdtemp(prefix=f"verif_{pid}_"))
     try:
         bind_repo()
+        preimport()
         ctx = Ctx(tier, seed, tmp)
         cases = mod.gen_cases(tier, seed)
         res["n_cases_total"] = len(cases)
@@ -183,7 +202,7 @@ def load_known():
 def run_property(pid: str, tier: str, seed: int, replay: str | None = None) -> int:
     t0 = time.time()
     mod = load_prop(pid)
-    outdir = VERIF / "out" / pid
+    outdir = VERIF / "out" / (pid if repo_path() == Path("/repo") else f"alt_{pid}")
     outdir.mkdir(parents=True, exist_ok=True)
     env = dict(os.environ)
     env.update(
@@ -360,8 +379,9 @@ def run_property(pid: str, tier: str, seed: int, replay: str | None = None) -> i
         "violations": len(fresh),
         "verdict": {0: "held on what was observed", 1: "violated", 2: "inconclusive"}[rc],
     }
-    evdir = VERIF / "evidence"
-    evdir.mkdir(exist_ok=True)
+    # evidence/ describes /repo itself; runs against another tree (self-tests, seeded changes) write elsewhere
+    evdir = VERIF / "evidence" if repo_path() == Path("/repo") else VERIF / "out" / "alt_evidence"
+    evdir.mkdir(parents=True, exist_ok=True)
     (evdir / f"{pid}.json").write_text(json.dumps(ev, indent=1, sort_keys=True) + "\n")
     print(
         f"{pid} {tier} seed={seed}: evaluations={evaluations} distinct_nontrivial={len(nontrivial)} "
